@@ -81,13 +81,14 @@ def fhex(f):
     return f.hex()
 
 
-def build(spec, perm_seed=None, fresh_strings=False, share_leaves=False):
+def build(spec, perm_seed=None, fresh_strings=False, share_leaves=False, shared=None):
     """Build the Python value of a spec.  perm_seed permutes insertion order of
     every dict/set/frozenset; fresh_strings builds each str at run time from
     pieces (equal but distinct objects)."""
     rnd = random.Random(perm_seed) if perm_seed is not None else None
     mutables = []
-    shared = {}   # share_leaves: equal str/bytes leaves are one and the same object
+    if shared is None:
+        shared = {}   # share_leaves: equal str/bytes leaves are one and the same object (optionally across several builds)
 
     def order(items):
         items = list(items)
